@@ -14,6 +14,7 @@ REPLAY_PY = os.environ.get('VERIF_REPLAY_PY', '/venv/bin/python')
 SEED = int(os.environ.get('VERIF_SEED', '0') or 0)
 
 EXIT_OK, EXIT_VIOLATION, EXIT_INCONCLUSIVE = 0, 1, 2
+REPLAY_WITH_TOOLING = {'C12', 'C17'}
 
 
 def setup_path():
@@ -134,7 +135,8 @@ def run_replay(pid, path, timeout=120):
     script = os.path.join(VERIF, 'replay', 'replay.py')
     env = dict(os.environ, VERIF_REPO=REPO, PYTHONPATH=REPO)
     try:
-        p = subprocess.run([REPLAY_PY, script, pid, path], capture_output=True, text=True, timeout=timeout, env=env)
+        py = sys.executable if pid in REPLAY_WITH_TOOLING else REPLAY_PY      # schema replays need the jsonschema package
+        p = subprocess.run([py, script, pid, path], capture_output=True, text=True, timeout=timeout, env=env)
     except subprocess.TimeoutExpired:
         return None, 'replay timed out'
     out = (p.stdout + p.stderr)[-4000:]
